@@ -4,6 +4,7 @@ import LeptosModel.Proofs.RViewTop
 import LeptosModel.Proofs.RViewQuiet
 import LeptosModel.Proofs.RViewMRun
 import LeptosModel.Proofs.RViewErrb
+import LeptosModel.Proofs.SViewLoaded
 /-!
 # C04 — a mounted reactive view always settles to the render of current state
 
@@ -41,7 +42,7 @@ theorem C04_settles_full (p : Program) (ops : List Op) (hw : p.wf = true)
   simp only [Program.wf, Bool.and_eq_true] at hw'
   rcases InvDM.run hw (wf_coreS p.view hw'.2) ops with h | h
   · rw [h.1] at hd; cases hd
-  · exact h.2.settled hidle
+  · exact h.2.settled (wf_coreS p.view hw'.2) hidle
 
 /-- (a) dynamic parts that read MEMOS (named stage: an instance of `C04_settles_full`; no `allSigs`) -/
 theorem C04_settles_memo (p : Program) (ops : List Op) (hw : p.wf = true) (hc : p.view.core = true)
@@ -515,3 +516,32 @@ example :
       [(⟨0, 1⟩, []), (⟨1, 8⟩, [2, 3, 4]), (⟨2, 1⟩, [5]), (⟨3, 0⟩, []), (⟨4, 0⟩, [6])] := by decide +kernel
 
 end Leptos.RView
+
+/-! ## `<Suspense>` / `<Transition>` at idle points (`Model/SView.lean`)
+
+`Leptos.SView.C04_suspense_loaded`, `C04_transition_once`, `C04_suspense_pending` (Proofs/SViewLoaded.lean).
+A kernel-checked history of the nested view of the seeded change C04-r2-1: the inner resource starts to reload
+while the outer boundary shows its fallback and the outer one completes first — the inner boundary shows ITS
+fallback; in the end nothing is left loading and the DOM is the loaded view. -/
+namespace Leptos.SView
+open Leptos.Reactive Leptos.RView
+
+def nestedProg : SProg :=
+  { defs := [.sig 1, .sig 1], bodies := [.rd true 0, .rd true 1], pre := [0, 1],
+    view := .elem "section" [] (.sus (.seq (.elem "b" [] (.aw 0)) (.sus (.elem "p" [] (.aw 1))))) }
+
+example :
+    nestedProg.wf = true ∧
+    nestedProg.start.dom = [.open "section" [], .open "b" [], .text (.int 1), .close,
+      .open "p" [], .text (.int 1), .close, .close] ∧
+    (nestedProg.run [.set 0 2, .set 1 2]).dom = [.open "section" [], .text (.lit "wait"), .close] ∧
+    (nestedProg.run [.set 0 2, .set 1 2, .resolve 0]).dom =
+      [.open "section" [], .open "b" [], .text (.int 2), .close, .text (.lit "wait"), .close] ∧
+    (nestedProg.run [.set 0 2, .set 1 2, .resolve 0, .resolve 1]).dom =
+      [.open "section" [], .open "b" [], .text (.int 2), .close, .open "p" [], .text (.int 2), .close, .close] ∧
+    (nestedProg.run [.set 0 2, .set 1 2, .resolve 0, .resolve 1]).dom =
+      renderLoaded (nestedProg.run [.set 0 2, .set 1 2, .resolve 0, .resolve 1]) nestedProg.view 0 := by
+  decide +kernel
+
+end Leptos.SView
+
